@@ -6,7 +6,7 @@ EXPR_ARITY = {
     'null': 1, 'true': 1, 'false': 1, 'self': 1, 'dollar': 1, 'str': 2, 'num': 2, 'var': 2, 'paren': 2,
     'array': 2, 'arrcomp': 3, 'object': 2, 'objcomp': 6, 'field': 3, 'index': 3, 'slice': 5, 'sfield': 2,
     'sindex': 2, 'insuper': 2, 'call': 4, 'local': 3, 'if': 4, 'binary': 4, 'unary': 3, 'objext': 3,
-    'func': 3, 'assert': 4, 'error': 2, 'implit': 2, 'imptb': 2, 'impcomp': 3, 'std': 3,
+    'func': 3, 'assert': 4, 'error': 2, 'implit': 2, 'implib': 2, 'imptb': 2, 'impcomp': 3, 'std': 3,
 }
 
 
@@ -33,7 +33,7 @@ def walk(e, inobj, path, out):
             walk(name, inobj, path + [2], out)
             walk(body, True, path + [4], out)
             return
-        if k in ('str', 'num', 'var', 'sfield', 'implit', 'imptb'):
+        if k in ('str', 'num', 'var', 'sfield', 'implit', 'imptb', 'implib'):
             return
         if k == 'field':
             walk(e[1], inobj, path + [1], out)
